@@ -22,6 +22,7 @@ type StoreCase struct {
 	Type    string      `json:"type,omitempty"`
 	JSON    interface{} `json:"json,omitempty"`
 	RawHex  string      `json:"raw_hex,omitempty"`
+	IsRaw   bool        `json:"is_raw,omitempty"`
 }
 
 type BankCase struct {
@@ -528,6 +529,7 @@ func (m *Machine) buildCase(label string, model map[string]string) *CaseFile {
 				sc.JSON = ev.jsonOf(e.obj, e.objType)
 			} else if e.raw != nil {
 				sc.RawHex = hex.EncodeToString(ev.bytesOf(e.raw))
+				sc.IsRaw = true
 			}
 			cf.Stores = append(cf.Stores, sc)
 		}
